@@ -100,8 +100,10 @@ def world2pixel_single_axis(wcs, *world, pixel_axis=None):
     world_new = []
 
     # Now find all the world coordinates that are needed to calculate this
-    # world coordinate, using the axis correlation matrix
-    world_dep = wcs.axis_correlation_matrix[:, pixel_axis]
+    # pixel coordinate. The axis correlation matrix describes the pixel to
+    # world transformation, and its inverse can mix any axes that are
+    # (directly or indirectly) coupled, so we need all of these.
+    world_dep = _coupled_axes(wcs.axis_correlation_matrix, pixel_axis)
 
     for iw, w in enumerate(world):
         if world_dep[iw]:
@@ -171,8 +173,35 @@ def dependent_axes(wcs, axis):
     if isinstance(wcs, LegacyCoordinates):
         return (axis,)
     matrix = wcs.axis_correlation_matrix[::-1, ::-1]
+    if matrix.shape[0] == matrix.shape[1]:
+        return tuple(np.nonzero(_coupled_axes(matrix, axis))[0])
     world_dep = matrix[:, axis:axis + 1]
     return tuple(np.nonzero((world_dep & matrix).any(axis=0))[0])
+
+
+def _coupled_axes(matrix, axis):
+    """
+    Given an axis correlation matrix and the index of an axis, return a
+    boolean array that indicates all the axes that are directly or indirectly
+    coupled to that axis by the transformation or its inverse.
+
+    This treats pixel and world axis ``i`` as the same node of the correlation
+    graph and returns the connected component of ``axis``, which is valid (if
+    not always minimal) whether ``axis`` refers to a pixel or a world axis and
+    whichever direction of the transformation is needed - in particular also
+    if the correlation matrix is not symmetric.
+    """
+    matrix = np.asarray(matrix, dtype=bool)
+    if matrix.shape[0] != matrix.shape[1]:
+        return matrix[:, axis]
+    connected = matrix | matrix.T
+    coupled = np.zeros(matrix.shape[0], dtype=bool)
+    coupled[axis] = True
+    while True:
+        updated = coupled | connected[coupled].any(axis=0)
+        if np.array_equal(updated, coupled):
+            return coupled
+        coupled = updated
 
 
 def _get_ndim(header):
